@@ -180,6 +180,9 @@ def discharge(prelude: List[Any], obligations: List[Any], timeout: float = 10.0,
        variants only drop assumptions, so their `unsat` is a valid discharge; `sat` is only believed for the full query."""
     backends = backends or ["z3", "cvc5", "z3-4.8"]
     jobs = int(os.environ.get("PYVC_JOBS", jobs))
+    if os.environ.get("PYVC_REPO"):
+        # runs on a scratch copy (mutants, patched trees) keep their queries apart from the runs on /repo
+        tag = "%s@%s" % (tag, os.path.basename(os.environ["PYVC_REPO"].rstrip("/")))
     outdir = os.path.join(CACHE, tag)
     if os.path.isdir(outdir):
         import shutil
